@@ -21,7 +21,8 @@ RULE = (
     "resp. reaction with >=1 changed bond"
 )
 REQUIRED = ["smiles_roundtrip_checked", "graph_tables_checked", "h_roundtrip_checked", "implicit_hydrogen_checked",
-            "implicit_hydrogen_multi_h_same_atom", "gml_roundtrip_checked", "gml_equivalence_checked", "gml_second_generation_checked", "gml_second_generation_with_aromatic_bonds",
+            "implicit_hydrogen_multi_h_same_atom", "gml_roundtrip_checked", "gml_equivalence_checked", "gml_second_generation_checked", "gml_second_generation_with_aromatic_bonds", "gml_explicit_hydrogen_export_checked",
+            "preserve_with_atom_map_different_from_node_id",
             "charged_molecules", "aromatic_molecules", "charge_changing_rules", "h2_molecules", "reindex_runs", "h_roundtrip_scrambled_ids", "multiply_charged_rules"]
 ASSUMPTIONS = [
     "stereochemistry is not carried by the graph layer; canonical SMILES compared non-isomerically",
@@ -140,8 +141,11 @@ def check_molecule(ctx, smi, tag):
         # implicit_hydrogen with preserve sets (mapped explicit H, several on one atom)
         e3 = e.copy()
         hn = [n for n, d in e3.nodes(data=True) if d.get("element") == "H" and n not in g.nodes]
+        shift = rng.choice([0, 0, 100, 7])     # atom-map numbers need not coincide with the node ids
+        if shift:
+            ctx.count("preserve_with_atom_map_different_from_node_id")
         for n in e3.nodes:
-            e3.nodes[n]["atom_map"] = n
+            e3.nodes[n]["atom_map"] = n + shift
         if hn:
             k = rng.randint(0, len(hn))
             keep = set(rng.sample(hn, k))
@@ -152,7 +156,7 @@ def check_molecule(ctx, smi, tag):
             if any(v >= 2 for v in by_heavy.values()):
                 ctx.count("implicit_hydrogen_multi_h_same_atom")
             d3 = WG.gdigest(e3)
-            out = implicit_hydrogen(e3, set(keep))
+            out = implicit_hydrogen(e3, {h_ + shift for h_ in keep})
             ctx.count("implicit_hydrogen_checked")
             if WG.gdigest(e3) != d3:
                 ctx.violation("input-mutated", {**wit, "preserve": sorted(keep), "call": "implicit_hydrogen"},
@@ -162,8 +166,8 @@ def check_molecule(ctx, smi, tag):
                     e3.nodes[n]["atom_map"] = n
             if keep:
                 d3 = WG.gdigest(e3)
-                w1 = graph_to_smi(e3, preserve_atom_maps=sorted(keep))
-                w2 = graph_to_smi(e3, preserve_atom_maps=sorted(keep))
+                w1 = graph_to_smi(e3, preserve_atom_maps=sorted(h_ + shift for h_ in keep))
+                w2 = graph_to_smi(e3, preserve_atom_maps=sorted(h_ + shift for h_ in keep))
                 ctx.count("graph_to_smi_preserve_checked")
                 if WG.gdigest(e3) != d3 or w1 != w2 or w1 is None or canon(w1) != ref:
                     ctx.violation("input-mutated" if WG.gdigest(e3) != d3 else "h-molecule", {**wit, "preserve": sorted(keep), "call": "graph_to_smi(preserve_atom_maps=...)"},
@@ -247,6 +251,15 @@ def strip_unchanged(g):
     return h
 
 
+def without_spectator_h(g):
+    """rule graph without hydrogen atoms all of whose bonds are unchanged single bonds (they only restate hydrogen counts)."""
+    h = g.copy()
+    drop = [n for n, d in h.nodes(data=True) if d["lab"] == ("H", "H") and h.degree(n) >= 1
+            and all(h[n][m]["lab"] == ("-", "-") for m in h[n]) and all(h.nodes[m]["lab"] != ("H", "H") for m in h[n])]
+    h.remove_nodes_from(drop)
+    return h
+
+
 def its_rule_graph(its):
     """the same annotated rule graph computed directly from an ITS (element+charge labels, order labels)."""
     lab = {1: "-", 1.0: "-", 1.5: ":", 2: "=", 2.0: "=", 3: "#", 3.0: "#"}
@@ -315,13 +328,21 @@ def check_reaction(ctx, r, tag):
             ctx.violation("gml-roundtrip", {**wit, "reindex": reindex}, "gml_to_its(its_to_gml(rc)) is not isomorphic to rc on (element, charges, order pairs)")
         # full ITS through GML, and a second generation (an ITS that was itself loaded from GML is exported again:
         # it carries the order pairs but none of the RDKit-derived flags)
-        for core, want, src, nm in ((False, want_full, its, "full"), (True, want_core, rc, "centre")):
+        for core, want, src, nm in ((False, want_full, its, "full"), (True, want_core, rc, "centre"), (False, want_full, its, "full+explicit_hydrogen")):
             try:
-                b1 = gml_to_its(its_to_gml(src, core=core, reindex=reindex))
-                ok1 = rules_equivalent(its_rule_graph(b1), want)
-                txt2 = its_to_gml(b1, core=core, reindex=reindex)
-                ok2 = rules_equivalent(read_gml(txt2), want)
-                ok3 = rules_equivalent(its_rule_graph(gml_to_its(txt2)), want)
+                kw_x = {"explicit_hydrogen": True} if nm.endswith("explicit_hydrogen") else {}
+                if kw_x:
+                    ctx.count("gml_explicit_hydrogen_export_checked")
+                b1 = gml_to_its(its_to_gml(src, core=core, reindex=reindex, **kw_x))
+                if kw_x:
+                    # hydrogens were written out as atoms: compare the rules without spectator hydrogens
+                    ok1 = rules_equivalent(without_spectator_h(its_rule_graph(b1)), without_spectator_h(want))
+                    ok2 = ok3 = True
+                else:
+                    ok1 = rules_equivalent(its_rule_graph(b1), want)
+                    txt2 = its_to_gml(b1, core=core, reindex=reindex)
+                    ok2 = rules_equivalent(read_gml(txt2), want)
+                    ok3 = rules_equivalent(its_rule_graph(gml_to_its(txt2)), want)
             except Exception as e:
                 ctx.violation("gml-second-generation", {**wit, "reindex": reindex, "core": core}, f"{nm} rule: {type(e).__name__}: {e}")
                 continue
